@@ -6,6 +6,7 @@
 #include "vlib/meter.h"
 #include "vlib/ops.h"
 #include "ref/mutate.h"
+#include "vlib/sigstorm.h"
 #include <nop/rpc/interface.h>
 #include <nop/rpc/simple_method_receiver.h>
 #include <nop/rpc/simple_method_sender.h>
@@ -49,9 +50,9 @@ static std::string tkey(const TypeCtx& c) {   // stable type-shape class for vio
 }
 static std::string vjson(const Val& v, size_t max = 160) { std::string s = str(v); if (s.size() > max) { s.resize(max); s += ".."; } return s; }
 
-static Val gen_value(const TypeCtx& c, uint64_t case_idx, uint64_t salt, bool allow_big = false) {
+static Val gen_value(const TypeCtx& c, uint64_t case_idx, uint64_t salt, bool allow_big = false, bool force_big = false) {
   Rng r = case_rng(c.t->name, case_idx, salt);
-  GenOpts o; o.big = allow_big;
+  GenOpts o; o.big = allow_big || force_big; o.force_big = force_big;
   Gen g(r, o);
   return g.gen(c.sch);
 }
@@ -141,7 +142,10 @@ static void c01_case(const TypeCtx& c, uint64_t ci) {
   rep().count("c01_values", (uint64_t)nvals); if (nvals > 1) rep().count("c01_sequences");
   if (big) rep().count("c01_big_values");
   // append a sentinel after the sequence: it must still read back
-  Bytes stream = ref_bytes; const uint8_t sentinel[5] = {0x82, 0xef, 0xbe, 0xad, 0xde}; stream.insert(stream.end(), sentinel, sentinel + 5);
+  // (odd cases: nothing follows the sequence - the last value is the last thing on the stream / in the buffer)
+  const bool with_sentinel = (ci & 1) == 0;
+  Bytes stream = ref_bytes; const uint8_t sentinel[5] = {0x82, 0xef, 0xbe, 0xad, 0xde}; if (with_sentinel) stream.insert(stream.end(), sentinel, sentinel + 5);
+  rep().count(with_sentinel ? "c01_sequences_followed_by_more_data" : "c01_sequences_ending_the_stream");
   Resolver rs{&pushed};
   // ---- read back with every applicable reader kind
   for (int rk = 0; rk < R_COUNT; rk++) {
@@ -159,7 +163,8 @@ static void c01_case(const TypeCtx& c, uint64_t ci) {
       size_t cons = src.consumed();
       if (cons != ends[i]) { viol(fmt("C01:consumed:%s:%s", rname(rk), tkey(c).c_str()), fmt("%s consumed %zu bytes after value %zu, the writer had produced %zu", rname(rk), cons, i, ends[i])); ok = false; break; }
     }
-    if (ok) {   // sentinel
+    if (ok && !with_sentinel) rep().count(std::string("c01_reader_") + rname(rk));
+    if (ok && with_sentinel) {   // sentinel
       uint32_t sv = 0; nop::Status<void> st;
       switch (rk) {
         case R_LOG: st = nop::Deserializer<LogReader*>{&src.log}.Read(&sv); break; case R_BUFFER: st = nop::Deserializer<nop::BufferReader*>{&src.br}.Read(&sv); break;
@@ -187,6 +192,50 @@ static void c01_case(const TypeCtx& c, uint64_t ci) {
     }
   }
   if (rep().want_sample(c.t->name, 1) && rep().samples.size() < 14) rep().sample(c.t->name, J().s("type", c.t->name).u("values_in_sequence", nvals).s("first_value", vjson(v0s[0], 120)).s("bytes", hex(ref_bytes, 48)).u("len", ref_bytes.size()).str(), 1);
+  clear_current();
+}
+
+// ---- FdWriter / FdReader on a blocking pipe with a small kernel buffer, a slow peer and a signal storm (vlib/sigstorm.h):
+// interrupted and partial system calls must not lose, duplicate or refuse data (C01 round trip, C03 bytes on the medium)
+static void fd_storm_case(const TypeCtx& c, uint64_t ci, const char* P, bool read_side) {
+  if (!r_ok(R_FD, c.t->flags) || !w_ok(W_FD, c.t->flags) || (c.t->flags & F_AMBIGUOUS)) return;
+  Viol viol{c, (int64_t)ci, "fd-storm"};
+  const bool bigk = (c.sch.k == K::STR || c.sch.k == K::BIN) && c.sch.len == Len::VAR;
+  const int nvals = bigk ? 1 : 3;
+  set_current("%s", case_desc(c.t->name, (int64_t)ci, "fd-storm").c_str());
+  std::vector<std::unique_ptr<Obj>> objs; std::vector<Val> v0s; Bytes ref;
+  for (int i = 0; i < nvals; i++) {
+    objs.emplace_back(new Obj(c.t)); objs.back()->set(gen_value(c, ci, 100 + (uint64_t)i, false, bigk && i == 0)); v0s.push_back(canoned(c.sch, objs.back()->val()));
+    Enc e; RefEncode(c.sch, objs.back()->val(), e); ref.insert(ref.end(), e.out.begin(), e.out.end());
+  }
+  rep().note(hash_combine(hash_combine(hash_str(c.t->name), hash_bytes(ref.data(), ref.size())), 0x5707), ref.size() >= 2);
+  uint64_t sig0 = storm_delivered().load();
+  { // writer side
+    int fds[2]; if (::pipe(fds) != 0) return; shrink_pipe(fds[1]);
+    SlowDrain drain(fds[0], ci * 31 + 1);
+    nop::Status<void> st; size_t i = 0;
+    { Sink s; s.kind = W_FD; s.fw.reset(new nop::FdWriter(fds[1]));
+      { SignalStorm storm(pthread_self(), 50); for (; i < objs.size(); i++) { st = c.t->write(s, objs[i]->p); if (!st) break; } }
+      s.fw.reset();   // closes the write end: the drain sees EOF
+    }
+    Bytes& got = drain.join();
+    rep().count("fd_storm_writes"); rep().count("fd_storm_bytes_written", ref.size());
+    if (i < objs.size()) viol(fmt("%s:fd-signal-storm:write-failed:%s", P, tkey(c).c_str()), fmt("FdWriter on a blocking pipe under signals: Write of value %zu failed with '%s' (the peer was reading all the time)", i, errname(st.error())));
+    else if (got != ref) { size_t d = 0; while (d < got.size() && d < ref.size() && got[d] == ref[d]) d++;
+      viol(fmt("%s:fd-signal-storm:bytes-differ:%s", P, tkey(c).c_str()), fmt("FdWriter on a blocking pipe under signals reported success; the pipe received %zu bytes, the encoding has %zu, first difference at %zu", got.size(), ref.size(), d)); }
+  }
+  if (read_side) { // reader side
+    int fds[2]; if (::pipe(fds) != 0) return; shrink_pipe(fds[1]);
+    SlowFeed feed(fds[1], ref, ci * 17 + 3);
+    { Source src; src.kind = R_FD; src.fr.reset(new nop::FdReader(fds[0]));
+      SignalStorm storm(pthread_self(), 50);
+      for (size_t i = 0; i < objs.size(); i++) { Obj o2(c.t); auto st = c.t->read(src, o2.p);
+        if (!st) { viol(fmt("%s:fd-signal-storm:read-failed:%s", P, tkey(c).c_str()), fmt("FdReader on a slowly fed pipe under signals: Read of value %zu failed with '%s'", i, errname(st.error()))); break; }
+        if (canoned(c.sch, o2.val()) != v0s[i]) { viol(fmt("%s:fd-signal-storm:value-differs:%s", P, tkey(c).c_str()), fmt("FdReader on a slowly fed pipe under signals: value %zu read back differently", i)); break; } }
+      rep().count("fd_storm_reads");
+    }
+  }
+  rep().count("fd_storm_signals_delivered", storm_delivered().load() - sig0);
   clear_current();
 }
 
@@ -352,6 +401,9 @@ static void c04_c02_case(const TypeCtx& c, uint64_t ci, bool is_c02) {
       set_current("%s", case_desc(c.t->name, (int64_t)ci, stage, J().s("reader", rname(rk)).s("mutation", m.desc).s("bytes", hex(m.bytes, 200)).str()).c_str());
       uint64_t cap = is_c02 ? 65536 + 1024 * (uint64_t)m.bytes.size() + 64 * dc.t->sizeof_t : 0;
       Obj dst(dc.t);
+      // every other input is decoded into a destination that already holds another value: "yields the value those bytes denote" and
+      // memory safety must not depend on a fresh destination (users reuse message objects)
+      if ((mi + (size_t)k) % 2 == 1) { dst.set(gen_value(dc, ci, 700 + (mi % 3))); rep().count(is_c02 ? "c02_decodes_into_used_destination" : "c04_decodes_into_used_destination"); }
       DecodeOutcome d = decode_with(dc, rk, m.bytes, bound, dst, &rs, cap);
       std::string det = J().s("reader", rname(rk)).s("mutation", m.desc).s("bytes", hex(m.bytes, 200)).str();
       Viol vv2{c, (int64_t)ci, stage.c_str()};
@@ -401,7 +453,9 @@ static void c04_c02_case(const TypeCtx& c, uint64_t ci, bool is_c02) {
 
 // ================================================================= C05: every cut point on every reader
 static void c05_case(const TypeCtx& c, uint64_t ci) {
-  Val v = gen_value(c, ci, 100);
+  const bool big = (ci % 12 == 5) && (c.sch.k == K::STR || c.sch.k == K::BIN) && c.sch.len == Len::VAR;
+  if (big) rep().count("c05_values_above_64KiB");
+  Val v = gen_value(c, ci, 100, false, big);
   Obj o(c.t); Written w; Viol viol{c, (int64_t)ci, "cut"};
   set_current("%s", case_desc(c.t->name, (int64_t)ci, "cut").c_str());
   if (!write_reference(c, o, v, &w, viol, "C05")) return;
@@ -550,7 +604,10 @@ static void c06_huge() {
 static const nop::ErrorStatus kFaults[] = {nop::ErrorStatus::ReadLimitReached, nop::ErrorStatus::WriteLimitReached, nop::ErrorStatus::StreamError, nop::ErrorStatus::IOError, nop::ErrorStatus::ProtocolError, nop::ErrorStatus::DebugError};
 static void c10_case(const TypeCtx& c, uint64_t ci) {
   Viol viol{c, (int64_t)ci, "fault"};
-  Val v = gen_value(c, ci, 100);
+  // one case per type with a top-level payload above 64 KiB (block transfers that a reader/writer may split)
+  const bool big = (ci % 8 == 5) && (c.sch.k == K::STR || c.sch.k == K::BIN) && c.sch.len == Len::VAR;
+  if (big) rep().count("c10_values_above_64KiB");
+  Val v = gen_value(c, ci, 100, false, big);
   Obj o(c.t); Written w;
   set_current("%s", case_desc(c.t->name, (int64_t)ci, "fault").c_str());
   if (!write_reference(c, o, v, &w, viol, "C10")) return;
@@ -700,7 +757,14 @@ static void c11_case(const TypeCtx& c, uint64_t ci) {
   for (size_t bi = 0; bi < incoming.size(); bi++) {
     const Bytes& b = incoming[bi];
     // decode into a fresh object
-    const int rk11 = (c.t->flags & F_HANDLE) ? R_LOG : R_PEDANTIC;
+    // the reader kind rotates with the case: prior-state independence must hold on every shipped reader (the same kind decodes into the fresh and the used object)
+    static const int k11[] = {R_PEDANTIC, R_STREAM, R_BUFFER, R_CHUNKED, R_B_PEDANTIC, R_FD, R_B_STREAM, R_PEDANTIC};
+    // (byte strings with arbitrary content - the noise mutations, indices 1..3 - only go to readers that bound the input themselves: a hostile length on an
+    //  unbounded stream/fd reader allocates by design and is outside every property; the valid encoding and its truncation go to every kind)
+    static const int k11b[] = {R_PEDANTIC, R_BUFFER, R_B_PEDANTIC, R_B_BUFFER};
+    const bool arbitrary = bi >= 1 && bi + 1 < incoming.size();
+    int rk11 = (c.t->flags & F_HANDLE) ? R_LOG : arbitrary ? k11b[(ci + bi) % 4] : k11[(ci + bi) % 8]; if (!r_ok(rk11, c.t->flags)) rk11 = R_PEDANTIC;
+    rep().count(std::string("c11_reader_") + rname(rk11));
     Obj fresh(c.t); DecodeOutcome df = decode_with(c, rk11, b, SIZE_MAX, fresh, &rs, 0);
     Val fv; if (df.ok) fv = canoned(c.sch, fresh.val());
     for (int prior_kind = 0; prior_kind < 5; prior_kind++) {
@@ -768,7 +832,7 @@ int vf::engine_main() {
       if (a.only_case >= 0 && a.only_case != ci) continue;
       ran = true;
       if (fl & F_UNBOUNDED) rep().count("cases_on_unbounded_buffer_types");
-      if (P == "C01") { c01_case(c, (uint64_t)ci); if (ci % 4 == 0) c01_oversize(c, (uint64_t)ci); } else if (P == "C03") c03_case(c, (uint64_t)ci); else if (P == "C04") c04_c02_case(c, (uint64_t)ci, false); else if (P == "C02") c04_c02_case(c, (uint64_t)ci, true);
+      if (P == "C01") { c01_case(c, (uint64_t)ci); if (ci % 4 == 0) c01_oversize(c, (uint64_t)ci); if (ci % 8 == 6 || a.only_stage == "fd-storm") fd_storm_case(c, (uint64_t)ci, "C01", true); } else if (P == "C03") { c03_case(c, (uint64_t)ci); if (ci % 64 == 6 || a.only_stage == "fd-storm") fd_storm_case(c, (uint64_t)ci, "C03", false); } else if (P == "C04") c04_c02_case(c, (uint64_t)ci, false); else if (P == "C02") c04_c02_case(c, (uint64_t)ci, true);
       else if (P == "C05") c05_case(c, (uint64_t)ci); else if (P == "C06") c06_case(c, (uint64_t)ci); else if (P == "C10") c10_case(c, (uint64_t)ci); else if (P == "C11") c11_case(c, (uint64_t)ci);
     }
     if (P == "C03" && (a.only_case < 0 || a.only_case == -2)) c03_dense(c);
